@@ -1,5 +1,6 @@
 import OV.Model.C12Autocast
 import OV.Model.C12Cache
+import OV.Model.C12Opset
 import OV.Model.C12Scope
 import OV.Model.C12Call
 import OV.Drivers.Loop
@@ -108,6 +109,7 @@ def handleCast (mode : String) (rest : List String) : String :=
     | "builder" => showRes (castBuilder fs args)
     | "expected" => showRes (expected fs args)
     | "repr" => if allRepresentable fs args then "1" else "0"
+    | "castlike" => if usesCastLike fs args then "1" else "0"
     | _ => "bad-op"
   | _, _ => "bad-op"
 
@@ -198,19 +200,26 @@ def parseParam (s : String) : Option OV.Call.Param :=
   | ['A', a, b] => some (.attr (a == '1') (b == '1'))
   | _ => none
 
-/-- `sep <allowExtra 0/1> <n> <param>*` with param `I<variadic><required>` | `A<required><hasDefault>`:
-`ok in=<i>,… attr=<param>:<arg>,…` or `ERR:missing` / `ERR:tooMany`. -/
+def showSrc : Option OV.Call.Src → String
+  | some (.pos i) => s!"p{i}"
+  | some (.kw i) => s!"k{i}"
+  | none => "-"
+
+/-- `sep <allowExtra 0/1> <n> <kws: i,j,…|-> <param>*` with param `I<variadic><required>` | `A<required><hasDefault>`:
+`ok in=<src>,… attr=<param>:<src>,…` (src `p<i>` positional, `k<i>` keyword of parameter i, `-` placeholder)
+or `ERR:missing` / `ERR:tooMany`. -/
 def handleSep (rest : List String) : String :=
   match rest with
-  | ae :: n :: ps =>
-    match parseBit ae, n.toNat?, ps.mapM parseParam with
-    | some ae, some n, some ps =>
-      match OV.Call.separate ps n ae with
-      | .ok r => "ok in=" ++ ",".intercalate (r.inputs.map toString) ++ " attr="
-          ++ ",".intercalate (r.attrs.map (fun q => s!"{q.1}:{q.2}"))
+  | ae :: n :: kws :: ps =>
+    let kwl : Option (List Nat) := if kws == "-" then some [] else (kws.splitOn ",").mapM (fun (t : String) => t.toNat?)
+    match parseBit ae, n.toNat?, kwl, ps.mapM parseParam with
+    | some ae, some n, some kwl, some ps =>
+      match OV.Call.separate ps n kwl ae with
+      | .ok r => "ok in=" ++ ",".intercalate (r.1.map showSrc) ++ " attr="
+          ++ ",".intercalate (r.2.map (fun q => s!"{q.1}:{showSrc (some q.2)}"))
       | .error .missing => "ERR:missing"
       | .error .tooMany => "ERR:tooMany"
-    | _, _, _ => "bad-op"
+    | _, _, _, _ => "bad-op"
   | _ => "bad-op"
 
 def handle (args : List String) : String :=
